@@ -1672,7 +1672,10 @@ func (p *Parser) parseAsyncExpression(prec OpPrec, async []byte) IExpr {
 	precLeft := OpPrimary
 	if !p.prevLT && p.tt == FunctionToken {
 		// primary expression
+		prevIn := p.in
+		p.in = true
 		left = p.parseAsyncFuncExpr()
+		p.in = prevIn
 	} else if !p.prevLT && prec <= OpAssign && (p.tt == OpenParenToken || IsIdentifier(p.tt) || p.tt == YieldToken || p.tt == AwaitToken) {
 		// async arrow function expression or call expression
 		if p.tt == AwaitToken || p.yield && p.tt == YieldToken {
@@ -1895,13 +1898,9 @@ func (p *Parser) parseExpression(prec OpPrec) IExpr {
 	case AsyncToken:
 		async := p.data
 		p.next()
-		prevIn := p.in
-		p.in = true
 		left = p.parseAsyncExpression(prec, async)
-		p.in = prevIn
-		if _, ok := left.(*ArrowFunc); ok {
-			precLeft = OpAssign
-		}
+		p.exprLevel--
+		return left // parseAsyncExpression has parsed the suffix
 	case ClassToken:
 		prevIn := p.in
 		p.in = true
